@@ -30,8 +30,13 @@ ASSUMPTIONS = ["oracle: the eager Struct/Array of the same library"]
 MEMBERS = {
     "u8": "Byte", "u16": "Int16ub", "kw": "Bytes(this._params.n)", "pre": "Prefixed(Byte, GreedyBytes)", "var": "VarInt", "prefix3": "Prefixed(Byte, Bytes(2))",
     "parr": "PrefixedArray(Byte, Byte)", "pad": "Padded(3, Byte)", "cst": "Const(b'\\x00')",
+    "parrvar": "PrefixedArray(Byte, VarInt)",      # measurable only by parsing, and measuring it reads the count first
+    "dflt": "Default(Byte, 7)", "opt": "Optional(Int16ub)",      # members that build from None: the parsed value must still be what is built
+    "acst": "Const(b'\\x00')", "apad": "Padding(1)",            # ANONYMOUS members (no name): they shift indexes but not names
+    "arrpre": "Array(2, Prefixed(Byte, GreedyBytes))", "alpre": "Aligned(2, Prefixed(Byte, GreedyBytes))",      # wrappers whose size is not their inner element's
 }
-QUICK_KINDS = ["u8", "u16", "kw", "pre", "var", "prefix3", "parr"]
+ANON = ("acst", "apad")
+QUICK_KINDS = ["u8", "u16", "kw", "pre", "var", "prefix3", "parr", "parrvar", "dflt", "opt", "acst", "arrpre"]
 
 
 def instances(tier, seed):
@@ -61,11 +66,17 @@ def instances(tier, seed):
         if tier == "quick":
             return 3
         return {2: 4, 3: 4, 4: 3}.get(len(ml), 2)          # |members|^H access histories per parse path
+    MINSZ = {"u8": 1, "u16": 2, "kw": 0, "pre": 1, "var": 1, "prefix3": 3, "parr": 1, "pad": 3, "cst": 1, "parrvar": 1, "dflt": 1, "opt": 0, "acst": 1, "apad": 1, "arrpre": 2, "alpre": 2}
+
+    def need(ml):
+        return sum(MINSZ[k] for k in ml)
+    lists = [ml for ml in lists if need(ml) <= 12]          # the shortest accepted input must fit the symbolic stream
     for ml in lists:
-        out.append(dict(name="lazystruct %s" % ",".join(ml), params=dict(kind="struct", members=ml, H=hist(ml), n=(6 if ml.count("prefix3") < 2 else 8) if tier == "quick" else (10 if len(ml) <= 3 else 8)), expect=["ok"]))
+        n = (6 if ml.count("prefix3") < 2 else 8) if tier == "quick" else (10 if len(ml) <= 3 else 8)
+        out.append(dict(name="lazystruct %s" % ",".join(ml), params=dict(kind="struct", members=ml, H=hist(ml), n=max(n, min(14, need(ml) + 2))), expect=["ok"]))
     for k in kinds:
         out.append(dict(name="lazyarray 3 x %s" % k, params=dict(kind="array", elem=k, count=3 if k not in ("var", "prefix3", "pre", "parr") else 2, H=H if k != "var" else 2, n=(6 if k != "prefix3" else 8) if tier == "quick" else 10), expect=["ok"]))
-        if k != "var":          # Lazy needs a sizable field (VarInt: SizeofError at parse time, by design)
+        if k not in ("var", "parrvar", "opt", "arrpre", "alpre"):          # Lazy needs a sizable field (VarInt: SizeofError at parse time, by design)
             out.append(dict(name="lazy field %s" % k, params=dict(kind="lazy", elem=k, n=8), expect=["ok"]))
     for ml in lists[:12]:
         out.append(dict(name="surrounding parse sees the same position: %s" % ",".join(ml), params=dict(kind="surround", members=ml, n=8)))
@@ -74,7 +85,7 @@ def instances(tier, seed):
 
 
 def _struct_src(cls, ml):
-    return "%s(%s)" % (cls, ", ".join("'m%d'/%s" % (i, MEMBERS[k]) for i, k in enumerate(ml)))
+    return "%s(%s)" % (cls, ", ".join(MEMBERS[k] if k in ANON else "'m%d'/%s" % (i, MEMBERS[k]) for i, k in enumerate(ml)))
 
 
 def harness(ctx, C, p):
@@ -97,6 +108,12 @@ def harness(ctx, C, p):
             i = ctx.concretize(ctx.int("access%d" % step, 0, len(ml) - 1))
             how = (step + i) % 3
             hist.append(i)
+            if ml[i] in ANON:
+                v = api.outcome(lambda: obj[i])          # an anonymous member is reachable by position only
+                ctx.check("access #%d of anonymous member %d succeeds" % (step, i), v.ok)
+                ctx.check("an anonymous member's value is what it parses to (history %s)" % hist, v.value == (b"\x00" if ml[i] == "acst" else None))
+                ctx.check("accessing a lazy member does not move the stream (history %s)" % hist, sl.tell() == end)
+                continue
             if how == 0:
                 v = api.outcome(lambda: obj["m%d" % i])
             elif how == 1:
@@ -159,13 +176,15 @@ def harness(ctx, C, p):
         ml = p["members"]
         inner_e, inner_l = _struct_src("Struct", ml), _struct_src("LazyStruct", ml)
         eager = mk(C, "Struct('l'/%s, 'next'/Byte)" % inner_e)
-        lazy = mk(C, "Struct('l'/%s, 'probe'/Computed(lambda ctx: ctx.l[0]), 'next'/Byte)" % inner_l)
+        first = min(i for i in range(len(ml)) if ml[i] not in ANON) if any(k not in ANON for k in ml) else 0
+        lazy = mk(C, "Struct('l'/%s, 'probe'/Computed(lambda ctx: ctx.l[%d]), 'next'/Byte)" % (inner_l, first))
         re_, rl = api.outcome(eager.parse, data, n=kwn), api.outcome(lazy.parse, data, n=kwn)
         if not re_.ok:
             return "eager-reject"
         ctx.check("surrounding parse with a lazy access in the middle succeeds", rl.ok)
         ctx.check("accessing a lazy member does not disturb the position seen by the surrounding parse", ctx.eq(rl.value.next, re_.value.next))
-        ctx.check("the accessed value is the eager one", ctx.eq(rl.value.probe, re_.value.l.m0))
+        if any(k not in ANON for k in ml):
+            ctx.check("the accessed value is the eager one", ctx.eq(rl.value.probe, re_.value.l["m%d" % first]))
         return "ok"
     if kind == "views":
         ml = p["members"]
@@ -175,8 +194,8 @@ def harness(ctx, C, p):
             return "eager-reject"
         ctx.check("lazy parse accepts", rl.ok)
         obj = rl.value
-        names = ["m%d" % i for i in range(len(ml))]
-        ctx.check("keys in declaration order", list(obj.keys()) == names and list(iter(obj)) == names and len(obj) == len(ml))
+        names = ["m%d" % i for i in range(len(ml)) if ml[i] not in ANON]
+        ctx.check("keys in declaration order", list(obj.keys()) == names and list(iter(obj)) == names and (len(obj) == len(ml)))
         vals = api.outcome(lambda: list(obj.values()))
         ctx.check("values() are the eager values in order", vals.ok and ctx.fork(ctx.eq(vals.value, [re_.value[n] for n in names])))
         items = api.outcome(lambda: list(obj.items()))
